@@ -589,13 +589,35 @@ def _array_equal(a, b):
 
 
 def _stack(xs, axis=0, **_k):
-    rows = [_to_data(x) for x in xs]
-    if axis in (0, None):
-        return Arr(rows)
-    a = Arr(rows)
-    if axis in (1, ) and a.ndim == 2 or axis == -1 and a.ndim == 2:
-        return a.T
-    raise TypeError("np.stack along this axis is not modelled")
+    arrs = [_arr(x) for x in xs]
+    if not arrs:
+        raise ValueError("need at least one array to stack")
+    sh = arrs[0].shape if isinstance(arrs[0], Arr) else ()
+    if any((a.shape if isinstance(a, Arr) else ()) != sh for a in arrs):
+        raise ValueError("all input arrays must have the same shape")
+    nd = len(sh) + 1
+    if axis < 0:
+        axis += nd
+    if not 0 <= axis < nd:
+        raise ValueError(f"axis {axis} is out of bounds for array of dimension {nd}")
+    out_shape = sh[:axis] + (len(arrs),) + sh[axis:]
+    r = _build(out_shape, lambda idx: _get_at(arrs[idx[axis]].data, idx[:axis] + idx[axis + 1:]) if sh else arrs[idx[axis]])
+    return Arr(r)
+
+
+def _sort(a, axis=-1, **_k):
+    "np.sort: every lane along `axis` is sorted independently (a copy)"
+    a = _arr(a)
+    if axis is None:
+        return Arr(sorted(a.flat_list()))
+    nd = a.ndim
+    if axis < 0:
+        axis += nd
+    sh = a.shape
+    lanes = {}
+    for idx in itertools.product(*[range(n_) for n_ in sh[:axis] + sh[axis + 1:]]):
+        lanes[idx] = sorted(_get_at(a.data, idx[:axis] + (k,) + idx[axis:]) for k in range(sh[axis]))
+    return Arr(_build(sh, lambda idx: lanes[idx[:axis] + idx[axis + 1:]][idx[axis]]))
 
 
 def _argwhere(a):
@@ -633,6 +655,7 @@ def _prod(x, axis=None, **_k):
 
 
 MODELS = {
+    "np.sort": _sort,
     "warnings.warn": lambda *a, **k: None,
     "np.prod": _prod,
     "np.column_stack": lambda xs: Arr([list(r) for r in zip(*[_to_data(x) for x in xs])]),
